@@ -1,11 +1,11 @@
-\* case generator (model checking): every well-formed tree with exactly 5 nodes, all kinds, all fanouts
+\* case generator (model checking): every well-formed tree with exactly 5 nodes, all kinds, fanouts {1,2} ({1,3} on Compute)
 CONSTANTS
   MaxN = 5
   MaxDepth = 4
   LeafKinds = {"Memory", "Toll", "Container", "Compute"}
   BranchKinds = {"Fork", "Hierarchical"}
-  Fanouts = {1, 2, 3}
-  ComputeFanouts = {1, 2, 3}
+  Fanouts = {1, 2}
+  ComputeFanouts = {1, 3}
   MinEmit = 5
   AppendComputes = TRUE
   CountOwn = FALSE
